@@ -296,6 +296,43 @@ def rule_provenance(ck: Check, repo: Repo) -> None:
         r.violation(repo.qualname_of(dl), "download destination", "must be --output or LICENSES/<id>.txt", repo.loc(dl))
 
 
+def rule_symlinks(ck: Check, repo: Repo, cg: CallGraph, rid: str = "R8") -> None:
+    """'never following symlinks': open(path, "w") writes THROUGH a symbolic link.  Between the command line and the
+    write there has to be a test that refuses (or resolves-and-confines) a link, for each way a written path comes
+    about: a path named on the command line, a child found by --recursive, and the FILE.license sibling."""
+    r = ck.rule(rid, "annotate never writes through a symbolic link (each source of a written path is tested for being a link)")
+    an = repo.qualname_of(repo.commands()["annotate"])
+    reach = cg.reachable([an])
+    link_tests = ("is_symlink", "islink", "O_NOFOLLOW", "follow_symlinks", "lstat", "readlink")
+
+    def tests_in(q: str) -> list[str]:
+        fn = repo.functions.get(q)
+        if fn is None:
+            return []
+        return sorted({n.attr if isinstance(n, ast.Attribute) else n.id for n in ast.walk(fn)
+                       if (isinstance(n, ast.Attribute) and n.attr in link_tests) or (isinstance(n, ast.Name) and n.id in link_tests)})
+
+    sources = {
+        "path named on the command line": [an, "reuse.cli.annotate.all_paths", "reuse._annotate.add_header_to_file"],
+        "FILE.license sibling": ["reuse._util._determine_license_path", "reuse._util._determine_license_suffix_path",
+                                 "reuse._annotate.add_header_to_file", "reuse.cli.annotate.all_paths"],
+        "child found by --recursive": ["reuse.covered_files.is_path_ignored"],
+    }
+    for what, fns in sources.items():
+        missing = [f for f in fns if f not in repo.functions]
+        if missing:
+            raise AnalysisError(f"anchor vanished: {missing[0]}")
+        found = {f: tests_in(f) for f in fns}
+        has = any(found.values())
+        r.instance(f"source:{what}", {"source": what, "functions": fns, "link_tests": {k: v for k, v in found.items() if v}}, fns[0])
+        if not has:
+            r.violation(fns[0], f"no symbolic-link test for a {what}",
+                        f"none of {[f.rsplit('.', 1)[-1] for f in fns]} tests the path for being a link before"
+                        f" add_header_to_file opens it for writing: `annotate` follows the link and rewrites (or creates) its"
+                        f" target, which may lie outside the project", repo.loc(repo.functions[fns[0]]))
+
+
+
 def run(ck: Check, repo: Repo) -> None:
     ck.explanation = (
         "Effect analysis over the whole-program call graph (callees resolved by mypy used as a library; dynamic"
@@ -318,6 +355,7 @@ def run(ck: Check, repo: Repo) -> None:
     rule_spdx_output(ck, repo)
     rule_subprocess(ck, repo, cg)
     rule_provenance(ck, repo)
+    rule_symlinks(ck, repo, cg)
     # 'download only adds new files': the exists() refusal dominates every write (same obligation as C19-R1)
     from . import c19
     c19.rule_put(ck, repo, "R5")
